@@ -39,7 +39,7 @@ _replay = {"decisions": {}, "registered": False}
 
 
 def plan(tier):
-    return [{"kind": "hypothesis", "examples": 240 if tier == "quick" else 8000}]
+    return [{"kind": "hypothesis", "examples": 600 if tier == "quick" else 8000}]
 
 
 @st.composite
